@@ -16,11 +16,45 @@ struct Seg {
   int term;       // K_LINE: terminator length (0 = unterminated last line, 1 = "\n", 2 = "\r\n"); K_CSTR: 1
 };
 
-enum { OP_PUT, OP_PPUT, OP_WRITE_PTR, OP_WRITE_STR, OP_EXTEND_TO, OP_EXTEND_BY, OP_RESET, OP_CSTR, OP_LINE, OP_PWRITE_PTR, OP_PWRITE_STR };
+enum { OP_PUT, OP_PPUT, OP_WRITE_PTR, OP_WRITE_STR, OP_EXTEND_TO, OP_EXTEND_BY, OP_RESET, OP_CSTR, OP_LINE, OP_PWRITE_PTR, OP_PWRITE_STR, OP_WRITE_SELF_PTR, OP_WRITE_SELF_STR, OP_PUT_SELF, OP_PPUT_SELF };
 struct OpRec {
   int op, kind;
   uint64_t a, b;
 };
+
+// Typed values passed BY REFERENCE into the writer's own buffer (reference obtained from a reader over w.str()).
+struct SelfT {
+  const char* name;
+  size_t W;
+  void (*put)(StringWriter&, size_t k);
+  void (*pput)(StringWriter&, size_t off, size_t k);
+};
+#define S_(T)                                                                                                  \
+  {#T, sizeof(T),                                                                                              \
+      [](StringWriter& w, size_t k) { StringReader rd(w.str()); w.put<T>(rd.pget<T>(k)); },                    \
+      [](StringWriter& w, size_t off, size_t k) { StringReader rd(w.str()); w.pput<T>(off, rd.pget<T>(k)); }},
+static const SelfT SELF[] = {S_(uint8_t) S_(phosg::be_uint16_t) S_(phosg::le_uint32_t) S_(phosg::re_float)
+    S_(phosg::be_uint64_t) S_(phosg::le_double) S_(Packed<uint32_t>)};
+static const int NSELF = sizeof(SELF) / sizeof(SELF[0]);
+#undef S_
+
+// sub-range [k, k+n) of S > 0 existing bytes: 0 whole, 1 prefix, 2 middle, 3 suffix; `need` > 0 asks for at least that many bytes
+static const char* const SHAPE_NAME[4] = {"whole", "prefix", "middle", "suffix"};
+static void pick_self_range(vf::Rng& g, size_t S, int shape, size_t need, size_t& k, size_t& n) {
+  if (need > S) need = 0;
+  size_t lo = need ? need : 1;
+  switch (shape) {
+    case 0: k = 0; n = S; break;
+    case 1: k = 0; n = lo + g.below(S - lo + 1); break;
+    case 2: n = lo + g.below(S - lo + 1); k = g.below(S - n + 1); break;
+    default: n = lo + g.below(S - lo + 1); k = S - n; break;
+  }
+}
+static std::string alias_class(const char* op, size_t S, size_t n, size_t cap) {
+  return vf::fmt("alias:%s:%s:%s", op, S + n > cap ? "reallocates" : "fits-capacity", cap <= 15 ? "sso" : "heap");
+}
+
+static void note_raw_overwrite(std::vector<struct Seg>& segs, size_t off, size_t W, size_t oldsize);
 
 static std::string fmt_op(const OpRec& o) {
   switch (o.op) {
@@ -34,6 +68,10 @@ static std::string fmt_op(const OpRec& o) {
     case OP_CSTR: return vf::fmt("write(cstr[%" PRIu64 "]+NUL)", o.a);
     case OP_LINE: return vf::fmt("write(line[%" PRIu64 "]+term%" PRIu64 ")", o.a, o.b);
     case OP_PWRITE_PTR: return vf::fmt("pwrite(%" PRIu64 ",ptr,%" PRIu64 ")", o.a, o.b);
+    case OP_WRITE_SELF_PTR: return vf::fmt("write(str().data()+%" PRIu64 ",%" PRIu64 ")", o.a, o.b);
+    case OP_WRITE_SELF_STR: return vf::fmt("write(str()) [%" PRIu64 " bytes]", o.b);
+    case OP_PUT_SELF: return vf::fmt("put<%s>(reader(str()).pget<T>(%" PRIu64 "))", SELF[o.kind].name, o.a);
+    case OP_PPUT_SELF: return vf::fmt("pput<%s>(%" PRIu64 ", reader(str()).pget<T>(%" PRIu64 "))", SELF[o.kind].name, o.a, o.b);
     case OP_PWRITE_STR: return vf::fmt("pwrite(%" PRIu64 ",str[%" PRIu64 "])", o.a, o.b);
   }
   return "?";
@@ -224,11 +262,18 @@ static void raw_read(const ReadCtx& rc, vf::Rng& g, StringReader& r, const uint8
   }
 }
 
+static StringReader make_owning_reader(std::shared_ptr<std::string> p, size_t start) {
+  vf::poison_errno();
+  StringReader r(p, start);
+  return r;  // p (this function's reference) dies here
+}
+
 static void read_phase(const ReadCtx& rc, vf::Rng& g, const uint8_t* sh, size_t size, const std::vector<Seg>& segs) {
   // three ways to put a reader over the bytes
   std::shared_ptr<std::string> owned;
   std::string held;
   std::unique_ptr<uint8_t[]> exact;
+  std::unique_ptr<std::string> decoy;
   StringReader r;
   switch (g.below(3)) {
     case 0:
@@ -245,13 +290,17 @@ static void read_phase(const ReadCtx& rc, vf::Rng& g, const uint8_t* sh, size_t 
       misc("reader:ctor(ptr,size)");
       break;
     default: {
+      // the reader is built by a helper and the caller's reference is dropped before anything is read:
+      // the owning constructor alone must keep the bytes alive (a same-sized block is then allocated and filled)
       owned = std::make_shared<std::string>((const char*)sh, size);
       g_base = (const uint8_t*)owned->data();
       size_t start = g.chance(1, 2) ? 0 : g.below(size + 1);
-      r = StringReader(owned, start);
+      r = make_owning_reader(std::move(owned), start);
+      owned.reset();
+      decoy.reset(new std::string(size, '\xDD'));
       if (r.where() != start) rviol(rc, "StringReader:ctor-offset", "constructor offset not honoured", vf::fmt("start %zu where %zu", start, r.where()));
       r.go(0);
-      misc("reader:ctor(shared_ptr,offset)");
+      misc("reader:ctor(shared_ptr,offset):caller-reference-dropped");
       break;
     }
   }
@@ -384,6 +433,19 @@ static void note_pput(std::vector<Seg>& segs, size_t off, size_t W, int kind, ui
   }
 }
 
+static void note_raw_overwrite(std::vector<Seg>& segs, size_t off, size_t W, size_t oldsize) {
+  for (auto& s : segs)
+    if (W && s.len && s.off < off + W && off < s.off + s.len) s.clobbered = true;
+  if (off + W > oldsize) {
+    if (off >= oldsize) {
+      if (off > oldsize) segs.push_back({oldsize, off - oldsize, K_RAW, 0, false, 0});
+      segs.push_back({off, W, K_RAW, 0, true, 0});
+    } else {
+      segs.push_back({oldsize, off + W - oldsize, K_RAW, 0, true, 0});
+    }
+  }
+}
+
 // returns false when the writer's bytes differ from the shadow (script is abandoned: no cascades)
 static bool check_sw(const char* part, uint64_t idx, const std::vector<OpRec>& ops, const std::string& opname, const std::string& got,
     size_t reported_size, const std::vector<uint8_t>& sh, size_t gap_from, size_t gap_to) {
@@ -417,7 +479,7 @@ static void sw_script(uint64_t idx, bool verbose) {
     size_t gap_from = 0, gap_to = 0;
     std::string opname;
     bool last = (oi == nops - 1);
-    if (pick < 45) {  // put
+    if (pick < 40) {  // put
       int k = (int)g.below(NWK);
       const WKind& K = WK[k];
       Val v = gen_val(g, K.base, K.width);
@@ -431,7 +493,7 @@ static void sw_script(uint64_t idx, bool verbose) {
       segs.push_back({S, (size_t)K.width, k, v.bits, false, 0});
       cov_w[0][0][k]++;
       cov_val[K.base][v.vc]++;
-    } else if (pick < 75) {  // pput
+    } else if (pick < 66) {  // pput
       int k = (int)g.below(NWK);
       const WKind& K = WK[k];
       size_t W = K.width;
@@ -472,6 +534,71 @@ static void sw_script(uint64_t idx, bool verbose) {
       cov_w[0][1][k]++;
       cov_val[K.base][v.vc]++;
       cov_pos[0][pos]++;
+    } else if (pick < 72 && S > 0) {  // raw block that lives inside the writer's own buffer
+      bool sform = pick >= 70;  // write(w.str()): the const std::string& overload given the writer's own string
+      size_t cap = w.str().capacity();
+      size_t need = (g.chance(1, 2) && cap >= S) ? cap - S + 1 : 0;  // half of the time: large enough to outgrow the capacity
+      int shape = sform ? 0 : (int)g.below(4);
+      size_t k = 0, n = S;
+      pick_self_range(g, S, shape, need, k, n);
+      std::vector<uint8_t> snap(sh.begin() + k, sh.begin() + k + n);  // value of the block BEFORE the call
+      ops.push_back({sform ? OP_WRITE_SELF_STR : OP_WRITE_SELF_PTR, 0, k, n});
+      opname = sform ? "StringWriter:write(string):source-inside-own-buffer" : "StringWriter:write(ptr,size):source-inside-own-buffer";
+      g_op = "StringWriter::write(own bytes)";
+      C->crumb_n("write_self", idx, oi, k, n, S, cap);
+      if (sform) w.write(w.str());
+      else w.write(w.str().data() + k, n);
+      sh.insert(sh.end(), snap.begin(), snap.end());
+      segs.push_back({S, n, K_RAW, 0, false, 0});
+      cov_misc[alias_class(sform ? "write(string)" : "write(ptr,size)", S, n, cap)]++;
+      cov_misc[std::string("alias:source-range:") + SHAPE_NAME[shape]]++;
+    } else if (pick < 75 && S >= 16) {  // typed value passed by reference into the writer's own buffer
+      int t = (int)g.below(NSELF);
+      size_t W = SELF[t].W, cap = w.str().capacity();
+      bool positional = pick >= 74;
+      size_t k = g.below(S - W + 1);
+      std::vector<uint8_t> snap(sh.begin() + k, sh.begin() + k + W);
+      if (!positional) {
+        ops.push_back({OP_PUT_SELF, t, k, 0});
+        opname = "StringWriter:put<T>:reference-into-own-buffer";
+        g_op = "StringWriter::put<T>(own bytes)";
+        C->crumb_n("put_self", idx, oi, t, k, S, cap);
+        SELF[t].put(w, k);
+        sh.insert(sh.end(), snap.begin(), snap.end());
+        segs.push_back({S, W, K_RAW, 0, false, 0});
+        cov_misc[alias_class("put<T>", S, W, cap)]++;
+      } else {
+        // in place, destination disjoint from the source; the growing variant only with --arg alias_pput=1 (see notes)
+        size_t off = 0;
+        bool grow = g_alias_pput && g.chance(1, 2);
+        if (grow) {
+          off = g.chance(1, 2) ? S - g.below(W) : S + g.below(40);
+          if (k + W > off) k = off >= W ? g.below(off - W + 1) : 0;
+          if (k + W > off || k + W > S) { grow = false; }
+          else snap.assign(sh.begin() + k, sh.begin() + k + W);
+        }
+        if (!grow) {
+          bool found = false;
+          for (int tries = 0; tries < 16 && !found; tries++) {
+            off = g.below(S - W + 1);
+            found = off + W <= k || k + W <= off;
+          }
+          if (!found) { off = k >= W ? 0 : S - W; }
+        }
+        ops.push_back({OP_PPUT_SELF, t, off, k});
+        opname = grow ? "StringWriter:pput<T>:reference-into-own-buffer:growing" : "StringWriter:pput<T>:reference-into-own-buffer";
+        g_op = "StringWriter::pput<T>(own bytes)";
+        C->crumb_n("pput_self", idx, oi, t, off, k, S, cap);
+        SELF[t].pput(w, off, k);
+        if (off + W > S) sh.resize(off + W, 0);
+        if (off > S) {
+          gap_from = S;
+          gap_to = off;
+        }
+        for (size_t i = 0; i < W; i++) sh[off + i] = snap[i];
+        note_raw_overwrite(segs, off, W, S);
+        cov_misc[grow ? alias_class("pput<T>:growing", S, off + W - S, cap) : std::string("alias:pput<T>:in-place")]++;
+      }
     } else if (pick < 81) {  // raw write (pointer form)
       std::string d = g.bytes(g.chance(1, 8) ? 0 : g.below(24));
       ops.push_back({OP_WRITE_PTR, 0, d.size(), 0});
